@@ -339,7 +339,7 @@ func genC11(r *Rand, tier string, i int) *h.Scenario {
 	// rewrite what a finished bar has already reported
 	if r.Bool(0.15) && len(sc.Bars) > 0 {
 		site := []int{h.FaultFill, h.FaultFill, h.FaultExt, h.FaultOutWrite}[r.Intn(4)]
-		sc.Faults = []h.Fault{{Site: site, Bar: r.Intn(len(sc.Bars)), K: r.Range(1, 9)}}
+		sc.Faults = []h.Fault{{Site: site, Bar: r.Intn(len(sc.Bars)), K: r.Range(1, 9), Err: []int{0, 0, 1, 2, 3, 4, 5, 6}[r.Intn(8)]}}
 		if site == h.FaultOutWrite {
 			sc.Faults[0].Bar = 0
 		}
